@@ -501,7 +501,7 @@ func main() {
 	stream("large", []wspec{{3 << 20, 3, 11}}, false)
 	stream("large", []wspec{{1<<20 + 17, 3, 11}, {65536, 1, 1}, {2<<20 - 1, 9, 5}}, false)
 	// ---- random small / medium sequences ----
-	for i := 0; i < c.N(100, 2000); i++ {
+	for i := 0; i < c.N(100, 400); i++ {
 		k := c.Rng.Range(1, 5)
 		var ws []wspec
 		for j := 0; j < k; j++ {
@@ -525,7 +525,7 @@ func main() {
 	for _, r := range raws {
 		rawRead("raw", r)
 	}
-	for i := 0; i < c.N(150, 4000); i++ {
+	for i := 0; i < c.N(150, 800); i++ {
 		var b []byte
 		for j := c.Rng.Range(0, 4); j > 0; j-- {
 			typ := []byte{0x14, 0x17, 0x17, 0x17, 0x16, 0x15, byte(c.Rng.U64())}[c.Rng.Intn(7)]
@@ -552,7 +552,7 @@ func main() {
 	for _, e := range []int{0, 1, 14, 15, 16, 17} {
 		hello(helloCase{"valid", e, c.Rng.U64()})
 	}
-	for i := 0; i < c.N(100, 3000); i++ {
+	for i := 0; i < c.N(100, 600); i++ {
 		hello(helloCase{scen[c.Rng.Intn(len(scen))], []int{0, 0, 1, 2, 5, 15}[c.Rng.Intn(6)], c.Rng.U64()})
 	}
 	c.Obs.Rule = "FakeTLS write sequences with sizes {0,1,65535,65536,65537,70000,131070,131071} and random 0..20000 (patterned payloads), every single write size 0..4200 and around each power of two up to 2^17 / multiples of 65535 (Go oracle only, a sample also through the model), read back with random buffer sizes through a random-chunk reader, 3 MiB writes under the Go oracle only; hand-made and random malformed record streams; FakeTLS.Handshake against scripted server hellos in 12 scenarios x extra handshake records {0..17}. Non-trivial = distinct non-empty write sequence / distinct raw wire / distinct hello scenario instance"
